@@ -904,6 +904,11 @@ func (p *Parser) parseJoin(stmt *SelectStatement) error {
 			if err != nil {
 				return err
 			}
+			// "=" is symmetric: a field belongs to the side its qualifier names, so an equality
+			// written table = stream (ON m.id = s.deviceId, ON m.id = deviceId) is turned around.
+			if onFieldsSwapped(left, right, stmt.SourceAlias, jc.Alias) {
+				left, right = right, left
+			}
 			jc.OnPairs = append(jc.OnPairs, types.JoinOnPair{
 				StreamField: stripAliasPrefix(left, stmt.SourceAlias, jc.Alias),
 				TableField:  stripAliasPrefix(right, stmt.SourceAlias, jc.Alias),
@@ -957,6 +962,26 @@ func (p *Parser) readJoinedFieldName() (string, error) {
 // resolves directly against the stream row or matched table row. "s.deviceId"
 // (stream alias) -> "deviceId"; "m.location" (table alias) -> "location".
 // Which side a pair belongs to is determined by which alias it carries.
+// onFieldsSwapped reports whether the qualifiers say that left is the table's field or right is
+// the stream's field, while nothing says the opposite (then the textual order stream = table stands).
+func onFieldsSwapped(left, right, streamAlias, tableAlias string) bool {
+	qualifier := func(field string) string {
+		if parts := strings.SplitN(field, ".", 2); len(parts) == 2 {
+			return parts[0]
+		}
+		return ""
+	}
+	tableSide := func(field string) bool {
+		q := qualifier(field)
+		return q != "" && q == tableAlias && q != streamAlias
+	}
+	streamSide := func(field string) bool {
+		q := qualifier(field)
+		return q != "" && q == streamAlias && q != tableAlias
+	}
+	return (tableSide(left) && !tableSide(right)) || (streamSide(right) && !streamSide(left))
+}
+
 func stripAliasPrefix(field, streamAlias, tableAlias string) string {
 	parts := strings.SplitN(field, ".", 2)
 	if len(parts) == 2 {
